@@ -51,9 +51,10 @@ def choose_hosts(corpus, n, rng):
     for o in corpus.objs:
         if o.family != 'world' or o.kind not in ('cmsg', 'smsg') or 'paste_versions' in o.tags or o.name in tests or o.name.startswith('MSG_'):
             continue
-        if id(o.raw) in seen or re.search(r'\b' + o.name + r'\b', hand):
+        # one host per message NAME: blame and vector attribution are keyed on the name
+        if o.name in seen or re.search(r'\b' + o.name + r'\b', hand):
             continue
-        seen.add(id(o.raw))
+        seen.add(o.name)
         exps = [e for e, t in model.EXPANSIONS.items() if any(model.covers(v, t) for v in o.versions)]
         if exps and not codec.info(o).compressed:
             hosts.append((o, exps))
@@ -62,9 +63,25 @@ def choose_hosts(corpus, n, rng):
     return hosts[:n]
 
 
+class LoginHost:
+    """a NEW login message (login messages are all named by hand-written code, so none can be a transplant host)"""
+    family = 'login'
+
+    def __init__(s, i, batch):
+        s.kind = ('slogin', 'clogin')[i % 2]
+        # not version 8: its opcode enum dispatches through the hand-written collective layer, which a new message does not have
+        s.version = (2, 3, 5, 6, 7)[(i // 2) % 5]
+        s.name = f'CMD_VERIF_{letters(batch)}{letters(i)}'.upper()
+        s.raw = {'opcode_raw': hex(0x40 + i // 2), 'tags': [('login_versions', str(s.version))]}
+        s.file = None
+
+
+LOGIN_FILE = os.path.join('wow_message_parser', 'wowm', 'login', 'verif_programs.wowm')
+
+
 def render(host, prog):
     o = host
-    own = [(k, v) for k, v in o.raw['tags'] if k == 'versions']
+    own = [(k, v) for k, v in o.raw['tags'] if k in ('versions', 'login_versions')]
     tags = (' {\n' + ''.join(f'    {k} = "{v}";\n' for k, v in own) + '}') if own else ''
     txt = f"{o.kind} {o.name} = {o.raw['opcode_raw']} {{\n{prog['body']}\n}}{tags}\n"
     for name, h in prog['helpers']:
@@ -75,7 +92,12 @@ def render(host, prog):
 def transplant(tree, placed):
     """placed: list of (host Obj, program). Rewrites the wowm files of the scratch tree."""
     by_file = {}
+    login = [render(host, prog) for host, prog in placed if isinstance(host, LoginHost)]
+    if login:
+        open(os.path.join(tree, LOGIN_FILE), 'w').write('\n'.join(login))
     for host, prog in placed:
+        if isinstance(host, LoginHost):
+            continue
         rel = os.path.relpath(host.file, common.REPO)
         by_file.setdefault(rel, []).append((host, prog))
     for rel, items in by_file.items():
@@ -153,22 +175,41 @@ def run(tier, replay=None):
     batches = 1 if tier == 'quick' else 3
     binary = gen.build_generator()
     for batch in range(batches):
-        hosts = choose_hosts(corpus, n_prog // batches + len(randprog.PROBES) + (48 if batch == 0 else 0), rng)
+        only = set(filter(None, os.environ.get('C07_ONLY', '').split(',')))   # development aid: probes,sys,matrix,random,login
+        mx = randprog.matrix_programs(lambda i: 'Vm' + letters(i), chunk=int(os.environ.get('C07_CHUNK', '4')), avoid=avoid) if batch == 0 and not replay and (not only or 'matrix' in only) else []
+        hosts = choose_hosts(corpus, n_prog // batches + len(randprog.PROBES) + (48 if batch == 0 else 0) + len(mx), rng)
         placed = []
         hi = 0
         for cls, mk in randprog.PROBES.items():
+            if only and 'probes' not in only:
+                break
             host = hosts[hi]
             hi += 1
             prog = mk('Vp' + letters(batch) + letters(hi))
             prog['classes'] = [cls]
             prog['probe'] = cls
+            if prog.get('family') == 'login':
+                lh = LoginHost(125 - len([1 for h in placed if isinstance(h[0], LoginHost)]), batch)   # from the top of the opcode range
+                host = (lh, [lh.version])
             placed.append(host + (prog,))
-        if batch == 0 and not replay:
+        if batch == 0 and not replay and (not only or 'sys' in only):
             sysprogs = randprog.systematic_programs(lambda i: 'Vs' + letters(i))
             for prog in sysprogs:
                 placed.append(hosts[hi] + (prog,))
                 hi += 1
-        for k, host in enumerate(hosts[hi:]):
+        for prog in mx:
+            placed.append(hosts[hi] + (prog,))
+            hi += 1
+        if not replay and (not only or 'login' in only):
+            lprogs = []
+            if batch == 0:
+                lprogs += randprog.matrix_programs(lambda i: 'Vl' + letters(i), family='login', chunk=int(os.environ.get('C07_CHUNK', '4')), avoid=avoid)
+            nl = 12 if tier == 'quick' else 30
+            lprogs += [randprog.make_program('Vq' + letters(batch) + letters(k), f'{common.seed()}:login:{batch}:{k}', avoid=avoid, family='login') for k in range(nl)]
+            for i, prog in enumerate(lprogs[:120]):
+                lh = LoginHost(i, batch)
+                placed.append((lh, [lh.version], prog))
+        for k, host in enumerate(hosts[hi:] if not only or 'random' in only else []):
             prog = randprog.make_program('Vr' + letters(batch) + letters(k), f'{common.seed()}:{batch}:{k}', avoid=avoid)
             placed.append(host + (prog,))
         if replay:
@@ -229,7 +270,7 @@ def run_batch(chk, corpus, binary, placed, batch):
         names = {(placed[i][0].name, e) for i in active for e in placed[i][1]}
         sc = model.Corpus(root)
         vecs = []
-        for key in ('world:vanilla', 'world:tbc', 'world:wrath'):
+        for key in ('world:vanilla', 'world:tbc', 'world:wrath') + tuple(f'login:{n}' for n in (2, 3, 5, 6, 7, 8)):
             env = sc.envs[key]
             cdc = codec.Codec(env)
             for c in env.messages():
@@ -244,7 +285,7 @@ def run_batch(chk, corpus, binary, placed, batch):
                             except codec.RefError:
                                 continue    # beyond the frame limits of this direction: not canonical
                             hl = len(frame) - len(body)
-                            vecs.append({'id': f'{key}.{d[0].upper()}.{c.name}#{klass}', 'family': 'world', 'version': env.version, 'dir': d,
+                            vecs.append({'id': f'{key}.{d[0].upper()}.{c.name}#{klass}', 'family': env.family, 'version': env.version, 'dir': d,
                                          'object': c.name, 'opcode': c.raw['opcode'], 'hex': frame.hex(), 'hdr': hl,
                                          'sig': sig, 'feat': cdc.last_feat, 'fmap': [[r[0], r[1] + hl] + r[2:] for r in fmap], 'payloads': []})
                 except codec.RefError as e:
